@@ -165,13 +165,17 @@ class Ctx:
             self.notes.append("tlapm not found: proofs of %s not re-checked in this run" % module)
             return None
         t = time.time()
-        try:
-            p = subprocess.run([exe, "--threads", str(min(NCPU, 8)), "--cleanfp", module + ".tla"], cwd=self.specdir,
-                               capture_output=True, text=True, timeout=timeout)
-        except subprocess.TimeoutExpired:
-            raise Broken("tlapm timeout on " + module)
-        out = p.stdout + p.stderr
-        m = re.search(r"All (\d+) obligations? proved", out)
+        m, out = None, ""
+        for attempt in (1, 2):      # back-end time-outs under load are not verdicts: stretched limits, one retry
+            try:
+                p = subprocess.run([exe, "--threads", str(min(NCPU, 8)), "--stretch", str(3 * attempt), "--cleanfp", module + ".tla"],
+                                   cwd=self.specdir, capture_output=True, text=True, timeout=timeout)
+            except subprocess.TimeoutExpired:
+                raise Broken("tlapm timeout on " + module)
+            out = p.stdout + p.stderr
+            m = re.search(r"All (\d+) obligations? proved", out)
+            if m:
+                break
         if not m:
             raise Broken("tlapm did not prove %s:\n%s" % (module, tail(out)))
         r = dict(module=module, obligations_proved=int(m.group(1)), wall_s=round(time.time() - t, 2))
